@@ -28,7 +28,12 @@ KindOf(sp, r, c) == IF \E n \in 1..Len(sp) : sp[n][1] = r /\ sp[n][2] = c
 Shapes == (1..3) \X (1..3)
 MarksFor(nr, S) == {hm \in S : HMarkFits(hm, nr)}
 CasesTOk == UNION {{<<"T", sh[1], sh[2], h, sp, <<0, 0, 1, 1>>>> : h \in MarksFor(sh[1], HMarks), sp \in Specials(sh[1], sh[2], MaxSpecial)} : sh \in Shapes}
-CasesTM == UNION {{<<"T", sh[1], sh[2], h, sp, m>> : h \in MarksFor(sh[1], {"none", "first", "lead2"}), sp \in Specials(sh[1], sh[2], 1), m \in MergesFit(sh[1], sh[2])} : sh \in Shapes}
+\* merged tables: every marking without special cells; with a special cell every marking only in the
+\* larger configuration (MaxSpecial >= 2), otherwise the first-row marking
+CasesTM == UNION {{<<"T", sh[1], sh[2], h, sp, m>> : h \in MarksFor(sh[1], {"none", "first", "lead2"}),
+                                                      sp \in IF MaxSpecial >= 2 THEN Specials(sh[1], sh[2], 1) ELSE {<<>>},
+                                                      m \in MergesFit(sh[1], sh[2])} : sh \in Shapes}
+           \cup UNION {{<<"T", sh[1], sh[2], "first", sp, m>> : sp \in Specials(sh[1], sh[2], 1), m \in MergesFit(sh[1], sh[2])} : sh \in Shapes}
 \* full alphabet on small tables: <<"F", nr, nc, hm, kinds as a function>>
 CasesF == UNION {{<<"F", sh[1], sh[2], h, kd>> : h \in MarksFor(sh[1], {"none", "first", "all"}), kd \in [1..sh[1] -> [1..sh[2] -> CellKinds]]} :
                    sh \in {x \in Shapes : x[1] * x[2] <= FullCells}}
